@@ -335,22 +335,66 @@ def dnsSafe (c : Nat) : Bool := 32 < c && c != 127 && c != 46 && c != 92 && c < 
 /-- ⌈num·n/den⌉ -/
 def ceilMul (r : Nat × Nat) (n : Nat) : Nat := (r.1 * n + r.2 - 1) / r.2
 
-/-! ## line protocol:  `codec <letter> enc <hex>`  /  `codec <letter> dec <hex>` -/
+/-! ## line protocol
+
+`codec <letter> enc <hex>` / `codec <letter> dec <hex>`: one call.
+
+`codec <letter> pair <hexA> <hexB>`, `codec <letter> seq <hex>…`, `codec <letter> par <G> <iters> <hex>…`:
+several inputs go through the *same* encoder value; the harness keeps every result (no copy) while the later
+calls run (`par`: from G goroutines at once) and prints what the retained results hold **afterwards**.  The
+model is pure, so its line is simply "every input encoded, every encoding decoded": model = code on these
+ops says that the results of the real encoder are independent values (no result changes under, or shares
+memory with, another call). -/
+
+def decTok (cd : Codec) (e : List Nat) : String :=
+  match decode cd e with
+  | some r => toHex r
+  | none => "err"
+
+/-- `E <encodings…> D <decodings of those encodings…>` -/
+def seqLine (cd : Codec) (ins : List (List Nat)) : String :=
+  let es := ins.map (encode cd)
+  " ".intercalate (["E"] ++ es.map toHex ++ ["D"] ++ es.map (decTok cd))
+
+def parseAll (hs : List String) : Option (List (List Nat)) := hs.mapM fromHex
 
 def handle : List String → String
-  | [l, op, hx] =>
-    match l.toList, fromHex hx with
-    | [ch], some bs =>
+  | l :: op :: r0 :: rs =>
+    let rest := r0 :: rs
+    match l.toList with
+    | [ch] =>
       match fromCode ch.toNat with
       | none => "bad-codec"
       | some cd =>
-        if op == "enc" then toHex (encode cd bs)
+        if op == "enc" then
+          match rest with
+          | [hx] => match fromHex hx with
+            | some bs => toHex (encode cd bs)
+            | none => "bad-op"
+          | _ => "bad-op"
         else if op == "dec" then
-          match decode cd bs with
-          | some r => toHex r
-          | none => "err"
+          match rest with
+          | [hx] => match fromHex hx with
+            | some bs => decTok cd bs
+            | none => "bad-op"
+          | _ => "bad-op"
+        else if op == "pair" then
+          match rest, parseAll rest with
+          | [_, _], some ins => seqLine cd ins
+          | _, _ => "bad-op"
+        else if op == "seq" then
+          match rest, parseAll rest with
+          | _ :: _, some ins => seqLine cd ins
+          | _, _ => "bad-op"
+        else if op == "par" then
+          match rest with
+          | g :: it :: hs =>
+            match g.toNat?, it.toNat?, hs, parseAll hs with
+            | some _, some _, _ :: _, some ins => seqLine cd ins
+            | _, _, _, _ => "bad-op"
+          | _ => "bad-op"
         else "bad-op"
-    | _, _ => "bad-op"
+    | _ => "bad-op"
   | _ => "bad-op"
 
 end SA.Codec
